@@ -91,13 +91,13 @@ add('C10-xar-silent', 'C10',
     'xar: uid/gid >= 2^31 and mtime beyond year 9999 are written but read back as 0; the setuid/setgid/sticky bits of the mode are dropped; an entry without a file type is stored as a regular file; status ARCHIVE_OK',
     case('xar', P('xar', uid='2147483648')), r'^C10 f=xar status=ok field=(uid|gid|mtime|type|perm) ')
 add('C10-nopath-crash', 'C10',
-    'gnutar, zip and 7zip writers do not check for a missing pathname: archive_write_header dereferences / memcpy()s a NULL pointer (UBSan/ASan abort; '
+    'gnutar and 7zip writers do not check for a missing pathname: archive_write_header dereferences / memcpy()s a NULL pointer (UBSan/ASan abort; '
     'in a plain build gnutar stores an entry with an empty name and returns ARCHIVE_OK)',
-    case('zip', P('zip', path='-')), r'^C10 f=(gnutar|zip|7zip) crashed in archive_write_header')
+    case('7zip', P('7zip', path='-')), r'^C10 f=(gnutar|7zip) crashed in archive_write_header')
 add('C10-mandatory-missing', 'C10',
-    'an entry without a pathname or without a file type is accepted with ARCHIVE_OK by the gnutar (pathname), 7zip, iso9660, mtree and xar writers '
+    'an entry without a pathname (missing, or for v7tar the empty string) or without a file type is accepted with ARCHIVE_OK by the gnutar (pathname), v7tar, 7zip, iso9660, mtree and xar writers '
     '(stored under an empty or invented name / as a regular file)',
-    case('mtree', P('mtree', path='-')), r'^C10 f=(7zip|gnutar|iso9660|mtree|xar|zip) (status=ok field=(path|type) missing mandatory field|accepted entry not read back path=-$)')
+    case('mtree', P('mtree', path='-')), r'^C10 f=(7zip|gnutar|v7tar|iso9660|mtree|xar|zip) (status=ok field=(path|type) missing mandatory field|accepted entry not read back path=-$)')
 add('C10-fatal-longcomponent', 'C10',
     'iso9660, mtree and xar writers answer a pathname component longer than 255 bytes with ARCHIVE_FATAL: the handle is dead and every later entry is rejected',
     case('mtree', P('mtree', path=hx('x' * 298 + '/x'))), r'^C10 f=(iso9660|mtree|xar) refusal was fatal')
@@ -107,6 +107,20 @@ add('C10-iso9660-deep-close', 'C10',
 add('C10-xar-deep', 'C10',
     'xar writer accepts a 400-level deep pathname with ARCHIVE_OK; the resulting archive cannot be read at all (TOC nesting beyond the XML parser limit)',
     case('xar', P('xar', path=hx('p/' * 400 + 'q')), n=6), r'^C02 f=xar every entry accepted with ARCHIVE_OK but the archive cannot be read back')
+
+add('C10-pax-xattr-twice', 'C10',
+    'pax writer stores every extended attribute twice (LIBARCHIVE.xattr.<url-encoded name> in base64 and SCHILY.xattr.<url-encoded name> raw) and the tar reader adds both: '
+    'each attribute is read back twice, the SCHILY copy under the still url-encoded name (differs for names with non-ASCII bytes, "%" or "=")',
+    case('pax', P('pax', xattr=hx('user.k') + ':' + hx('v'))), r'^(C10 f=paxr?( filter=\w+)?|C02 f=\w+ rewrite=paxr?) status=ok field=xattr every attribute read back twice')
+add('C10-pax-acl-separator', 'C10',
+    'pax writer stores ACLs in the textual form whose fields are separated by ":" "," white space and "#": a user or group name containing one of these is cut there '
+    'when read back, archive_write_header returns ARCHIVE_OK',
+    case('pax', P('pax', acl='a:m:7:-1:-,a:u:6:77:' + hx('a b'))), r'^(C10 f=paxr?( filter=\w+)?|C02 f=\w+ rewrite=paxr?) status=ok field=acl name with a separator character altered')
+add('C10-xar-duplicate-name', 'C10',
+    'xar writer accepts a second entry with the pathname of an earlier one with ARCHIVE_OK: the archive holds one entry of that name whose data cannot be read '
+    '(length and offset of the stored stream disagree; the reader used to loop forever on it)',
+    ['open f=xar', ent_line(good(0, 'xar')), ent_line(good(0, 'xar')), 'close', 'rd 0', 'rd 1', 'rd 2', 'done'],
+    r'^C10 f=xar( filter=\w+)? .*\(pathname written twice\)$')
 
 def case2(opts, ents, n=None):
     n = len(ents) if n is None else n
@@ -166,6 +180,10 @@ FIXED = [
  'fixed: property=C10 a302640 warc writer: an entry refused for its name length left w->typ set; finish_entry appended an end-of-record marker to the previous record (and the header string leaked)',
  'fixed: property=C10 890a482 gnutar writer: the K/L long-name headers of an entry refused for its file type stayed in the archive and were applied to the next entry',
  'fixed: property=C10 edecab6 pax writer: build_ustar_entry_name() can return 256 characters + NUL but its three destination buffers on the stack of archive_write_pax_header() were 256 bytes: one-byte stack-buffer-overflow for a 155-byte prefix + "//" + 100-byte name (found under ASan by the C10 path probes)',
+ 'fixed: property=C02 f131e22 tar reader: a pax NFSv4 or default ACL attribute marked the permission bits as set, so the entry came back with mode 0; with an access ACL the set-uid/set-gid/sticky bits of the header were dropped',
+ 'fixed: property=C02 d1db1c2 pax writer wrote atime/ctime only when non-zero: a time stamp of exactly 0 read back as unset',
+ 'fixed: property=C02 13c8d4f xar reader: archive_read_data_block returned ARCHIVE_OK with an empty block forever when an entry\'s compressed stream ends before the length the TOC declares (as in the archive the xar writer produces for two entries of the same name)',
+ 'fixed: property=C10 5bfa422 zip writer: write_path()/copy_path() looked at path[strlen(path) - 1] for an empty pathname (one byte before the buffer: ASan heap-buffer-overflow, ARCHIVE_FATAL in a plain build) and dereferenced a missing pathname; both are now refused with ARCHIVE_FAILED',
  'fixed: property=C10 1911fd7 gnutar writer: same orphaned long-name header when a numeric field (rdev, uid, size) of the entry itself did not fit',
 ]
 K['fixed'] = [x for x in K.get('fixed', []) if not any(x.split()[2] == y.split()[2] for y in FIXED)] + FIXED
